@@ -75,6 +75,9 @@ type serverPoolContext struct {
 	stdReq  *http.Request
 	resp    *httpprot.Response
 	stdResp *http.Response
+	// respBody is the callback reader around the body of stdResp (the
+	// body itself may have been wrapped again, e.g. by compression).
+	respBody *readers.CallbackReader
 }
 
 // Hop-by-hop headers. These are removed when sent to the backend.
@@ -389,7 +392,7 @@ func (sp *ServerPool) collectMetrics(spCtx *serverPoolContext) {
 	}
 
 	// Now, the body must be a CallbackReader.
-	body, _ := spCtx.stdResp.Body.(*readers.CallbackReader)
+	body := spCtx.respBody
 
 	// Collect when reach EOF or meet an error.
 	body.OnAfter(func(total int, p []byte, err error) {
@@ -459,6 +462,7 @@ func (sp *ServerPool) handle(ctx *context.Context, mirror bool) string {
 		spCtx.stdReq = nil
 		spCtx.resp = nil
 		spCtx.stdResp = nil
+		spCtx.respBody = nil
 
 		spanName := sp.spec.SpanName
 		if spanName == "" {
@@ -572,6 +576,7 @@ func (sp *ServerPool) doHandle(stdctx stdcontext.Context, spCtx *serverPoolConte
 func (sp *ServerPool) buildResponse(spCtx *serverPoolContext) (err error) {
 	body := readers.NewCallbackReader(spCtx.stdResp.Body)
 	spCtx.stdResp.Body = body
+	spCtx.respBody = body
 
 	if sp.proxy.compression != nil {
 		if sp.proxy.compression.compress(spCtx.stdReq, spCtx.stdResp) {
